@@ -566,7 +566,15 @@ void ScriptVariable::ArchiveInternal(Archiver& arc)
     arc.ArchiveObjectPosition(this);
 
     arc.ArchiveEnum(type);
-    switch (type)
+
+    // while loading, the variable counts as empty until its value is complete:
+    // a load that fails in between leaves nothing half-read to destroy
+    const auto archivedType = type;
+    if (arc.Loading()) {
+        type = variableType_e::None;
+    }
+
+    switch (archivedType)
     {
     case variableType_e::String:
         if (arc.Loading())
@@ -640,6 +648,8 @@ void ScriptVariable::ArchiveInternal(Archiver& arc)
     default:
         break;
     }
+
+    type = archivedType;
 }
 
 void ScriptVariable::CastBoolean()
